@@ -5,6 +5,7 @@ package main
 import (
 	"fmt"
 	"go/types"
+	"os"
 	"strings"
 
 	"golang.org/x/tools/go/ssa"
@@ -112,6 +113,9 @@ func init() {
 	reg("vf:vfPick", func(ex *Exec, fr *Frame, args []Value, site ssa.Instruction) Value {
 		t := ex.input(ex.strArg(args[0]), 64)
 		lo, hi := args[1].(*Term), args[2].(*Term)
+		if v, done := ex.picks[ex.strArg(args[0])]; done {
+			return ex.c64(v) // the same choice asked again on this path
+		}
 		if lo.IsConst() && hi.IsConst() {
 			// concrete range: fork over the values without consulting the solver
 			l, h := sx(lo.val, 64), sx(hi.val, 64)
@@ -124,6 +128,7 @@ func init() {
 				panic(pathEnd{kind: endInfeasible, msg: "pick differs from the fixed model"})
 			}
 			ex.assume(ex.ts.Eq(t, ex.c64(v)))
+			ex.picks[ex.strArg(args[0])] = v
 			return ex.c64(v)
 		}
 		c := ex.ts.BAnd(ex.ts.Sle(lo, t), ex.ts.Sle(t, hi))
@@ -131,7 +136,9 @@ func init() {
 			panic(pathEnd{kind: endInfeasible, msg: "empty range"})
 		}
 		ex.assume(c)
-		return ex.c64(ex.concretize(t, "vfPick"))
+		v := ex.concretize(t, "vfPick")
+		ex.picks[ex.strArg(args[0])] = v
+		return ex.c64(v)
 	})
 	reg("vf:vfConcrete", func(ex *Exec, fr *Frame, args []Value, site ssa.Instruction) Value {
 		t := args[0].(*Term)
@@ -157,18 +164,12 @@ func init() {
 		if c.IsTrue() {
 			return nil
 		}
-		if ex.replaying() && false {
-			ex.assume(c)
-			return nil
-		}
-		v := ex.check(c, false)
-		if v == Unsat {
+		if c.IsFalse() {
 			panic(pathEnd{kind: endInfeasible, msg: "assumption"})
 		}
-		if v == Unknown {
-			ex.incon = append(ex.incon, "assumption feasibility unknown: "+ex.where())
-		}
+		// lazy: feasibility of the path condition is established at the next vfReach / assertion / path end
 		ex.assume(c)
+		ex.pcDirty = true
 		return nil
 	})
 	reg("vf:vfAssert", func(ex *Exec, fr *Frame, args []Value, site ssa.Instruction) Value {
@@ -180,6 +181,7 @@ func init() {
 		return nil
 	})
 	reg("vf:vfReach", func(ex *Exec, fr *Frame, args []Value, site ssa.Instruction) Value {
+		ex.ensureFeasible()
 		ex.reached[ex.strArg(args[0])] = true
 		return nil
 	})
@@ -258,6 +260,12 @@ func init() {
 		return t
 	})
 	reg("vf:vfBeforeEncode", func(ex *Exec, fr *Frame, args []Value, site ssa.Instruction) Value { return nil })
+	reg("vf:vfShow", func(ex *Exec, fr *Frame, args []Value, site ssa.Instruction) Value {
+		if t, ok := args[1].(*Term); ok && os.Getenv("GSE_SHOW") != "" {
+			fmt.Fprintf(os.Stderr, "SHOW %s = %s\n", ex.strArg(args[0]), ex.ts.show(t, 12))
+		}
+		return nil
+	})
 	reg("vf:vfIsGSE", func(ex *Exec, fr *Frame, args []Value, site ssa.Instruction) Value { return ex.ts.True })
 	reg("vf:vfTier", func(ex *Exec, fr *Frame, args []Value, site ssa.Instruction) Value {
 		return ex.c64(uint64(ex.w.tier))
